@@ -6,7 +6,7 @@ import ast
 import sympy as sp
 
 from .. import units as U
-from ..anf import bose, compare
+from ..anf import bose, compare, short, is_zero
 from ..facts import (physics_seeds, interpolate_modes_roles, LONG, OFFD, CALC, FREQ, GAMMA, VDR, T, V, E0, E1, NAT,
                      E, PTV, PSTAT, QPHYS, MODE_DEP)
 from ..model import dotted_name, src, body_wo_doc, is_logging_stmt
@@ -99,7 +99,7 @@ def r_formulas(ctx, model):
             ctx.check(same, f"{kind}.{attr}", w,
                       expected=f"3*NAT*AVG[A_{part}/({5 if kind == 'long' else 15}*e_i*e_j)"
                                + (f" + P_{part}/(3*e_i)" if kind == "long" else "") + "] / (Ry/bohr^3)",
-                      found=str(sp.factor(got))[:500] if not same else "equal to the reference on the AVG basis",
+                      found=short(got)[:500] if not same else "equal to the reference on the AVG basis",
                       explanation=f"{attr} of the {kind} class differs from the strain derivative of F: {why}",
                       key=f"{kind}.{attr}")
     ctx.call_sites += ev.call_sites
@@ -119,7 +119,7 @@ def r_total(ctx, model):
         same, why = compare(tot - parts, want, MODE_DEP)
         ctx.check(same, f"{kind}.value_isothermal", w,
                   expected="zero_point + thermal" + (" + (P_total(T,V) - P_static(V))" if kind == "offd" else ""),
-                  found=str(sp.simplify(tot - parts))[:300] if not same else "as required",
+                  found=short(tot - parts)[:300] if not same else "as required",
                   explanation=f"isothermal value of the {kind} class is not zero-point + thermal"
                               + (" + total pressure - static pressure" if kind == "offd" else "") + f": {why}",
                   key=f"{kind}.value_isothermal")
@@ -137,7 +137,7 @@ def r_bose(ctx, model):
         got = norm(ev.get_attr(obj, name))
         same, why = compare(got, ref)
         ctx.check(same, f"bose.{name}", model.where(f"{owner}.{name}", f), expected=str(ref),
-                  found=str(sp.simplify(got))[:300],
+                  found=short(got)[:300],
                   explanation=f"Bose factor {name} is not {ref} (with E = exp(hc*nu/(kB*T))): {why}", key=f"bose.{name}")
         # both classes must use the same factor (no override in the subclass with another form)
         o2, f2, _ = model.find_member(OFFD, name)
